@@ -332,6 +332,13 @@ FASTCOVER_ctx_init(FASTCOVER_ctx_t* ctx,
         return ERROR(srcSize_wrong);
     }
 
+    /* The training set itself must hold at least one dmer :
+     * nbDmers is derived from trainingSamplesSize, not from totalSamplesSize */
+    if (trainingSamplesSize < MAX(d, sizeof(U64))) {
+        DISPLAYLEVEL(1, "Total size of training samples is too small\n");
+        return ERROR(srcSize_wrong);
+    }
+
     /* Check if there are at least 5 training samples */
     if (nbTrainSamples < 5) {
         DISPLAYLEVEL(1, "Total number of training samples is %u and is invalid\n", nbTrainSamples);
